@@ -1,11 +1,11 @@
 SPECIFICATION Spec
 CONSTANTS
   CurveP = {1,2,3,4}
-  CurveInt = 3
+  CurveInt = 4
   CurveVals <- KQ
   SurfMode = 2
   VolMode = 2
-  MaxNS = 6
+  MaxNS = 8
   Seed = 2
 INVARIANT T_WellFormed
 INVARIANT T_Definition
